@@ -206,10 +206,10 @@ func (prop) Generate(r *prng.Rand, phase string) any {
 	s := &Scenario{}
 	cfg := mgeom.SwarmCfg(r, []int{1, 2, 3, 4, 5})
 	cfg.PEmpty = []float64{0, 0.1, 0.3, 0.6}[r.Intn(4)]
-	if cfg.MaxCoords > 6 {
+	if cfg.MaxCoords > 6 && cfg.ExactCoords == 0 {
 		cfg.MaxCoords = 6
 	}
-	if cfg.MaxParts > 4 {
+	if cfg.MaxParts > 4 && cfg.ExactParts == 0 {
 		cfg.MaxParts = 4
 	}
 	l := []int{1, 2, 3, 4, 5}[r.Intn(5)]
